@@ -1,0 +1,462 @@
+//go:build verif
+
+package rpc
+
+// Verification accessors (build tag "verif" only). They expose the unexported
+// clock-diff encoder (sourceTracer.TransitionEnd -> tracerData, calcUpdate,
+// calcUpdateMutations via Server.newMsgMutation, Server.RemoteHello) and the
+// decoder (Client.updateStatesSchema, Client.clockFromUpdate,
+// Client.clockUpdate, Client.clockUpdateMutations, Client.clockSet) without a
+// network. Nothing here changes the behaviour of the package: every method
+// calls the real, unmodified function on real Server / Client / NetworkMachine
+// values; only the source machine's clock is replaced by a settable one, so
+// that arbitrary (also very large) clock values can be fed to the encoder.
+
+import (
+	"context"
+	"fmt"
+	"slices"
+
+	am "github.com/pancsta/asyncmachine-go/pkg/machine"
+)
+
+// VerifCfg is the sync configuration of one client-server pair.
+type VerifCfg struct {
+	// Names of the source machine, in index order. One of them has to be
+	// "Exception" (every machine has it).
+	Names am.S
+	// Allowed is [ClientOpts.AllowedStates] (nil: no allow list).
+	Allowed am.S
+	// Skipped is [ClientOpts.SkippedStates].
+	Skipped    am.S
+	SyncSchema bool
+	Shallow    bool
+	Mutations  bool
+}
+
+// VerifSnap is an exported copy of tracerData.
+type VerifSnap struct {
+	// NilTime is true when tracerData.mTime is nil (Time is ignored).
+	NilTime     bool
+	Time        am.Time
+	QueueTick   uint64
+	MachTick    uint32
+	TrackedSum  uint64
+	Checksum    uint8
+	Tracked     am.S
+	TrackedIdxs []int
+}
+
+func verifSnapOf(d *tracerData) *VerifSnap {
+	if d == nil {
+		return nil
+	}
+	return &VerifSnap{
+		NilTime:     d.mTime == nil,
+		Time:        slices.Clone(d.mTime),
+		QueueTick:   d.queueTick,
+		MachTick:    d.machTick,
+		TrackedSum:  d.mTrackedTimeSum,
+		Checksum:    d.checksum,
+		Tracked:     slices.Clone(d.tracked),
+		TrackedIdxs: slices.Clone(d.trackedIdxs),
+	}
+}
+
+func (v *VerifSnap) data() *tracerData {
+	if v == nil {
+		return &tracerData{}
+	}
+	d := &tracerData{
+		mTrackedTimeSum: v.TrackedSum,
+		queueTick:       v.QueueTick,
+		machTick:        v.MachTick,
+		checksum:        v.Checksum,
+		tracked:         slices.Clone(v.Tracked),
+		trackedIdxs:     slices.Clone(v.TrackedIdxs),
+	}
+	if !v.NilTime {
+		d.mTime = slices.Clone(v.Time)
+		if d.mTime == nil {
+			d.mTime = am.Time{}
+		}
+	}
+	return d
+}
+
+// verifSource is an am.Api whose clock values are settable. Everything else
+// is delegated to a real (never mutated) machine with the same state names.
+type verifSource struct {
+	am.Api
+	names am.S
+	time  am.Time
+	qTick uint64
+	mTick uint32
+}
+
+func (v *verifSource) StateNames() am.S          { return slices.Clone(v.names) }
+func (v *verifSource) Time(states am.S) am.Time  { return slices.Clone(v.time) }
+func (v *verifSource) QueueTick() uint64         { return v.qTick }
+func (v *verifSource) MachineTick() uint32       { return v.mTick }
+func (v *verifSource) Export() (*am.Serialized, am.Schema, error) {
+	_, schema, _ := v.Api.Export()
+	return &am.Serialized{
+		ID:          v.Api.Id(),
+		StateNames:  slices.Clone(v.names),
+		Time:        slices.Clone(v.time),
+		QueueTick:   v.qTick,
+		MachineTick: v.mTick,
+	}, schema, nil
+}
+
+// VerifEnv holds the (never mutated) helper machines shared by the servers and
+// clients of one driver goroutine: creating and disposing machines per case is
+// slow. Not safe for concurrent use.
+type VerifEnv struct {
+	ctx     context.Context
+	srvMach *am.Machine
+	cliMach *am.Machine
+	srcs    map[string]*am.Machine
+}
+
+// NewVerifEnv creates the helper machines.
+func NewVerifEnv(ctx context.Context) (*VerifEnv, error) {
+	e := &VerifEnv{ctx: ctx, srcs: map[string]*am.Machine{}}
+	// the RPC server's own machine: only Start and Handshaking are touched by
+	// RemoteHello
+	e.srvMach = am.New(ctx, am.Schema{
+		ssS.Start:       {},
+		ssS.Handshaking: {},
+	}, nil)
+	e.srvMach.Add1(ssS.Start, nil)
+	// the RPC client's own machine: clockUpdate / clockSet only ask for
+	// HandshakeDone
+	e.cliMach = am.New(ctx, am.Schema{ssC.HandshakeDone: {}}, nil)
+	e.cliMach.Add1(ssC.HandshakeDone, nil)
+	if e.srvMach.Not1(ssS.Start) || e.cliMach.Not1(ssC.HandshakeDone) {
+		return nil, fmt.Errorf("helper machines not ready")
+	}
+	return e, nil
+}
+
+// Dispose releases the helper machines.
+func (e *VerifEnv) Dispose() {
+	e.srvMach.Dispose()
+	e.cliMach.Dispose()
+	for _, m := range e.srcs {
+		m.Dispose()
+	}
+}
+
+func (e *VerifEnv) source(names am.S) (*am.Machine, error) {
+	key := fmt.Sprint(names)
+	if m, ok := e.srcs[key]; ok {
+		return m, nil
+	}
+	m, err := verifMach(e.ctx, names)
+	if err != nil {
+		return nil, err
+	}
+	e.srcs[key] = m
+	return m, nil
+}
+
+// verifParent is the parent of the per-case NetworkMachines (only Context, Id
+// and OnDispose are used by NewNetworkMachine).
+type verifParent struct {
+	am.Api
+	ctx context.Context
+}
+
+func (p *verifParent) Context() context.Context      { return p.ctx }
+func (p *verifParent) Id() string                    { return "verif" }
+func (p *verifParent) OnDispose(fn am.HandlerDispose) {}
+
+// VerifServer is a real Server (as NewServer leaves it, minus the network
+// parts) bound to a source with a settable clock.
+type VerifServer struct {
+	Cfg  VerifCfg
+	s    *Server
+	src  *verifSource
+	mach *am.Machine
+}
+
+func verifMach(ctx context.Context, names am.S) (*am.Machine, error) {
+	schema := am.Schema{}
+	for _, n := range names {
+		schema[n] = am.State{}
+	}
+	m := am.New(ctx, schema, nil)
+	if err := m.VerifyStates(names); err != nil {
+		return nil, err
+	}
+	return m, nil
+}
+
+// NewVerifServer builds the server side. The sync options are NOT set yet,
+// [VerifServer.Hello] (the real RemoteHello) or [VerifServer.Activate] does it.
+func NewVerifServer(env *VerifEnv, cfg VerifCfg) (*VerifServer, error) {
+	mach, err := env.source(cfg.Names)
+	if err != nil {
+		return nil, err
+	}
+	src := &verifSource{
+		Api:   mach,
+		names: slices.Clone(cfg.Names),
+		time:  make(am.Time, len(cfg.Names)),
+		qTick: 1,
+	}
+	// same literal values as NewServer
+	s := &Server{
+		ExceptionHandler: &ExceptionHandler{},
+		Source:           src,
+		lastPushData:     &tracerData{},
+	}
+	s.Mach = env.srvMach
+	s.tracer = &sourceTracer{
+		TracerNoOp: &am.TracerNoOp{Id: "verif"},
+		s:          s,
+		dataLatest: &tracerData{queueTick: 1},
+	}
+	return &VerifServer{Cfg: cfg, s: s, src: src, mach: mach}, nil
+}
+
+// SetClock sets the source machine's clock values.
+func (v *VerifServer) SetClock(t am.Time, qTick uint64, machTick uint32) {
+	v.src.time = slices.Clone(t)
+	v.src.qTick = qTick
+	v.src.mTick = machTick
+}
+
+// Reset puts the push state back to what NewServer creates (a fresh server
+// per case without re-creating the machines).
+func (v *VerifServer) Reset() {
+	v.s.lastPushData = &tracerData{}
+	v.s.tracer.dataLatest = &tracerData{queueTick: 1}
+	v.s.tracer.dataQueue = nil
+	v.s.tracer.trackedStates = nil
+	v.s.tracer.trackedStateIdxs = nil
+	v.s.tracer.active = false
+}
+
+// Hello runs the real Server.RemoteHello with the config as MsgCliHello and
+// returns a deep copy of the response (as the wire would deliver it).
+func (v *VerifServer) Hello() (*MsgSrvHello, error) {
+	req := &MsgCliHello{
+		Id:            "verif",
+		SyncSchema:    v.Cfg.SyncSchema,
+		SyncMutations: v.Cfg.Mutations,
+		AllowedStates: v.Cfg.Allowed,
+		SkippedStates: v.Cfg.Skipped,
+		ShallowClocks: v.Cfg.Shallow,
+	}
+	resp := &MsgSrvHello{}
+	if err := v.s.RemoteHello(nil, req, resp); err != nil {
+		return nil, err
+	}
+	ser := *resp.Serialized
+	ser.StateNames = slices.Clone(ser.StateNames)
+	ser.Time = slices.Clone(ser.Time)
+	return &MsgSrvHello{
+		Schema:      resp.Schema,
+		Serialized:  &ser,
+		StatesCount: resp.StatesCount,
+	}, nil
+}
+
+// Activate sets the sync options and activates the tracer the way RemoteHello
+// does, but leaves lastPushData untouched (first push of a fresh server).
+func (v *VerifServer) Activate() {
+	s := v.s
+	s.syncAllowedStates = v.Cfg.Allowed
+	s.syncSkippedStates = v.Cfg.Skipped
+	s.syncShallowClocks = v.Cfg.Shallow
+	s.syncMutations = v.Cfg.Mutations
+	s.syncSchema = v.Cfg.SyncSchema
+	s.tracer.calcTrackedStates(v.src.StateNames())
+	s.tracer.active = true
+}
+
+// Tracked returns the server-side tracked states and their source indexes.
+func (v *VerifServer) Tracked() (am.S, []int) {
+	return slices.Clone(v.s.tracer.trackedStates),
+		slices.Clone(v.s.tracer.trackedStateIdxs)
+}
+
+// TransitionEnd runs the real sourceTracer.TransitionEnd for a transition of
+// the source machine (whose clock is the one set by SetClock).
+func (v *VerifServer) TransitionEnd(mutType am.MutationType, called []int) {
+	tx := &am.Transition{
+		Machine: v.mach,
+		Mutation: &am.Mutation{
+			Type:   mutType,
+			Called: slices.Clone(called),
+		},
+	}
+	v.s.tracer.TransitionEnd(tx)
+}
+
+// Latest is a copy of the tracer's latest data (nil when flushed).
+func (v *VerifServer) Latest() *VerifSnap {
+	return verifSnapOf(v.s.tracer.dataLatest)
+}
+
+// Queue is a copy of the tracer's per-mutation data.
+func (v *VerifServer) Queue() []*VerifSnap {
+	var ret []*VerifSnap
+	for i := range v.s.tracer.dataQueue {
+		ret = append(ret, verifSnapOf(&v.s.tracer.dataQueue[i].data))
+	}
+	return ret
+}
+
+// LastPush is a copy of Server.lastPushData.
+func (v *VerifServer) LastPush() *VerifSnap {
+	return verifSnapOf(v.s.lastPushData)
+}
+
+// SetLastPush overwrites Server.lastPushData (nil: the empty tracerData of a
+// fresh server).
+func (v *VerifServer) SetLastPush(snap *VerifSnap) {
+	v.s.lastPushData = snap.data()
+}
+
+// Respond builds the update exactly like the reply to a client mutation does:
+// Server.newMsgMutation(result, tracer.DataLatest()), which calls calcUpdate /
+// calcUpdateMutations against lastPushData and stores the new last push. The
+// tracer's mutation queue is emptied afterwards (sourceTracer.DataQueue does
+// not do it), so that successive calls see successive mutations only.
+func (v *VerifServer) Respond() (msg *MsgSrvMutation, panicked string) {
+	defer func() {
+		if r := recover(); r != nil {
+			msg = nil
+			panicked = fmt.Sprint(r)
+		}
+		v.s.tracer.dataQueue = nil
+	}()
+	data := v.s.tracer.DataLatest()
+	return v.s.newMsgMutation(am.Executed, data), ""
+}
+
+// VerifCalcUpdate runs the real calcUpdate on two arbitrary snapshots.
+func VerifCalcUpdate(
+	syncSchema bool, data, lastPush *VerifSnap, shallow bool,
+) (msg *MsgSrvUpdate, panicked string) {
+	defer func() {
+		if r := recover(); r != nil {
+			msg = nil
+			panicked = fmt.Sprint(r)
+		}
+	}()
+	return calcUpdate(syncSchema, data.data(), lastPush.data(), shallow), ""
+}
+
+// VerifCalcUpdateMutations runs the real calcUpdateMutations.
+func VerifCalcUpdateMutations(
+	syncSchema bool, datas []*VerifSnap, prev *VerifSnap,
+) (msg *MsgSrvUpdateMuts, panicked string) {
+	defer func() {
+		if r := recover(); r != nil {
+			msg = nil
+			panicked = fmt.Sprint(r)
+		}
+	}()
+	muts := make([]tracerMutation, len(datas))
+	for i, d := range datas {
+		muts[i] = tracerMutation{mutType: am.MutationAdd, data: *d.data()}
+	}
+	return calcUpdateMutations(syncSchema, muts, prev.data()), ""
+}
+
+// VerifClient is a real Client with a real NetworkMachine, after the
+// handshake, without a connection.
+type VerifClient struct {
+	Cfg VerifCfg
+	c   *Client
+}
+
+// NewVerifClient builds the client side (what NewClient + StartState create).
+func NewVerifClient(env *VerifEnv, cfg VerifCfg) (*VerifClient, error) {
+	c := &Client{
+		Id:                "verif",
+		ExceptionHandler:  &ExceptionHandler{},
+		SyncNoSchema:      !cfg.SyncSchema,
+		SyncAllMutations:  cfg.Mutations,
+		SyncAllowedStates: cfg.Allowed,
+		SyncSkippedStates: cfg.Skipped,
+		SyncShallowClocks: cfg.Shallow,
+		schema:            am.Schema{},
+	}
+	c.Mach = env.cliMach
+	// same as Client.StartState: no states until the hello arrives
+	netMach, nmInt, err := NewNetworkMachine(env.ctx, PrefixNetMach+c.Id, nil,
+		c.schema, am.S{}, &verifParent{ctx: env.ctx}, nil, false)
+	if err != nil {
+		return nil, err
+	}
+	c.NetMach = netMach
+	c.netMachInt = nmInt
+	return &VerifClient{Cfg: cfg, c: c}, nil
+}
+
+// Hello runs the real Client.updateStatesSchema on the server's hello.
+func (v *VerifClient) Hello(resp *MsgSrvHello) {
+	v.c.updateStatesSchema(resp)
+}
+
+// Tracked returns the client-side tracked states and their mirror indexes.
+func (v *VerifClient) Tracked() (am.S, []int) {
+	return slices.Clone(v.c.trackedStates), slices.Clone(v.c.trackedStateIdxs)
+}
+
+// Mirror returns the NetworkMachine's clock values.
+func (v *VerifClient) Mirror() (am.Time, uint64, uint32) {
+	nm := v.c.NetMach
+	nm.clockMx.RLock()
+	defer nm.clockMx.RUnlock()
+	return slices.Clone(nm.machTime), nm.queueTick, nm.machTick
+}
+
+// SetMirror overwrites the mirror via the real Client.clockSet (full sync).
+func (v *VerifClient) SetMirror(t am.Time, qTick uint64, machTick uint32) {
+	v.c.clockSet(slices.Clone(t), qTick, machTick)
+}
+
+// ClockFromUpdate is the real Client.clockFromUpdate.
+func (v *VerifClient) ClockFromUpdate(
+	update *MsgSrvUpdate, t am.Time, qTick uint64, machTick uint32,
+) (am.Time, uint64, uint32) {
+	return v.c.clockFromUpdate(update, t, qTick, machTick)
+}
+
+// Check is the checksum the client compares with MsgSrvUpdate.Checksum (the
+// two lines of Client.clockUpdate preceding the comparison, for logging only;
+// the verdict on acceptance always comes from [VerifClient.Apply]).
+func (v *VerifClient) Check(t am.Time, qTick uint64, machTick uint32) uint8 {
+	checksumTime := t
+	if v.c.SyncShallowClocks {
+		checksumTime = am.NewTime(checksumTime, v.c.trackedStateIdxs)
+	}
+	return Checksum(checksumTime.Sum(nil), qTick, machTick)
+}
+
+// Apply runs the real Client.clockUpdate / Client.clockUpdateMutations on a
+// server reply, like clientNetMachConn.Call does, and tells if it was accepted
+// (false: the client would request a full sync).
+func (v *VerifClient) Apply(msg *MsgSrvMutation) (ok bool, panicked string) {
+	defer func() {
+		if r := recover(); r != nil {
+			ok = false
+			panicked = fmt.Sprint(r)
+			// clockUpdate panics with the clock lock taken
+			v.c.NetMach.clockMx.TryLock()
+			v.c.NetMach.clockMx.Unlock()
+			v.c.lockQueue.TryLock()
+			v.c.lockQueue.Unlock()
+		}
+	}()
+	if v.c.SyncAllMutations {
+		return v.c.clockUpdateMutations(msg.Mutations), ""
+	}
+	return v.c.clockUpdate(msg.Update, false), ""
+}
